@@ -2,7 +2,7 @@ import Infretis.Lemmas.RepexC04Rec
 /-!
 # C04 — `writeRows` (`write_to_pathens`): vectors move from `traj_data` to the data file
 -/
-namespace Infretis.Repex
+namespace Infretis.Repex.Frac
 open Infretis.Perm
 
 /-! ### association-list helpers -/
@@ -155,4 +155,4 @@ theorem writeRows_other : ∀ (l : List Nat) (s s' : St), writeRows s l = .ok s'
       exact this
     · exact absurd h (by simp)
 
-end Infretis.Repex
+end Infretis.Repex.Frac
